@@ -5,3 +5,4 @@ PAIRS = [v for k, v in A.items()]
 import seg_common, page_common
 S = seg_common.pairs(); PG = page_common.pairs()
 PAIRS += seg_common.span_allocate_pairs() + [S["span_page_of"], S["span_free"], S["slice_split"], PG["set_has_aligned"]]
+PAIRS += page_common.first_update_pairs()      # the direct small-page table: every word size of a bin points at that bin's queue head
